@@ -85,31 +85,34 @@ Qed.
 Lemma bind_ok {A B} (r : res A) (f : A -> res B) b : bind r f = Ok b -> exists a, r = Ok a /\ f a = Ok b.
 Proof. destruct r; simpl; [eauto|discriminate]. Qed.
 
-Definition unknown_option (raw : string) : bool :=
-  match split_on "="%char (strip_ws raw) with
+Definition unknown_option_gen (first : bool) (raw : string) : bool :=
+  match split_eq first (strip_ws raw) with
   | [k] | [k; _] => negb (mem_str k opt_flags) && negb (starts_with gapic_prefix k)
   | _ => false
   end.
-Lemma unknown_parse raw : unknown_option raw = true -> parse_opt raw = Ok [].
+Definition unknown_option : string -> bool := unknown_option_gen opt_split_first.
+Lemma unknown_parse first raw : unknown_option_gen first raw = true -> parse_opt_gen first raw = Ok [].
 Proof.
-  unfold unknown_option, parse_opt.
-  destruct (split_on "="%char (strip_ws raw)) as [|k [|v [|w l]]]; try discriminate; intro H;
+  unfold unknown_option_gen, parse_opt_gen.
+  destruct (split_eq first (strip_ws raw)) as [|k [|v [|w l]]]; try discriminate; intro H;
     apply andb_true_iff in H as [H1 H2]; apply negb_true_iff in H1, H2; rewrite H1;
     unfold starts_with in H2; destruct (strip_prefix gapic_prefix k); try discriminate; reflexivity.
 Qed.
-Lemma parse_opts_app l1 : forall l2,
-  parse_opts (l1 ++ l2) = bind (parse_opts l1) (fun a => bind (parse_opts l2) (fun b => Ok (a ++ b)%list)).
+Lemma parse_opts_app first l1 : forall l2,
+  parse_opts_gen first (l1 ++ l2) =
+  bind (parse_opts_gen first l1) (fun a => bind (parse_opts_gen first l2) (fun b => Ok (a ++ b)%list)).
 Proof.
   induction l1 as [|x l1 IH]; intros l2; simpl.
-  - destruct (parse_opts l2); reflexivity.
-  - destruct (parse_opt x) as [a|e]; simpl; [|reflexivity]. rewrite IH.
-    destruct (parse_opts l1) as [b|e]; simpl; [|reflexivity].
-    destruct (parse_opts l2) as [c|e]; simpl; [|reflexivity]. now rewrite app_assoc.
+  - destruct (parse_opts_gen first l2); reflexivity.
+  - destruct (parse_opt_gen first x) as [a|e]; simpl; [|reflexivity]. rewrite IH.
+    destruct (parse_opts_gen first l1) as [b|e]; simpl; [|reflexivity].
+    destruct (parse_opts_gen first l2) as [c|e]; simpl; [|reflexivity]. now rewrite app_assoc.
 Qed.
-Lemma parse_opts_ignore l1 raw l2 : unknown_option raw = true -> parse_opts (l1 ++ raw :: l2) = parse_opts (l1 ++ l2).
+Lemma parse_opts_ignore first l1 raw l2 : unknown_option_gen first raw = true ->
+  parse_opts_gen first (l1 ++ raw :: l2) = parse_opts_gen first (l1 ++ l2).
 Proof.
-  intro H. rewrite !parse_opts_app. simpl. rewrite (unknown_parse raw H). simpl.
-  destruct (parse_opts l1); simpl; [|reflexivity]. destruct (parse_opts l2); reflexivity.
+  intro H. rewrite !parse_opts_app. simpl. rewrite (unknown_parse first raw H). simpl.
+  destruct (parse_opts_gen first l1); simpl; [|reflexivity]. destruct (parse_opts_gen first l2); reflexivity.
 Qed.
 
 (* split_on c (sjoin c l) = l for pieces that do not contain c *)
@@ -138,35 +141,55 @@ Proof.
     simpl append. rewrite (proj1 (split_acc_piece c x Hx "" _)). simpl. f_equal. apply IH; [discriminate|assumption].
 Qed.
 
-(* unknown_options_ignored, on the option string itself: removing an unknown option (one with at most one "=" whose key is
-   neither a flag of the generator nor prefixed python-gapic-) anywhere in the comma separated list changes nothing *)
-Lemma unknown_options_ignored l1 raw l2 :
-  Forall (fun x => contains ","%char x = false) (l1 ++ raw :: l2) -> (l1 ++ l2)%list <> [] -> unknown_option raw = true ->
-  options_build (sjoin "," (l1 ++ raw :: l2)) = options_build (sjoin "," (l1 ++ l2)).
+(* unknown_options_ignored, on the option string itself: removing an unknown option (one that Options.build can unpack and whose
+   key is neither a flag of the generator nor prefixed python-gapic-) anywhere in the comma separated list changes nothing.
+   Stated for the code as it is (opt_split_first regenerated from /repo) through the generic lemma. *)
+Lemma unknown_options_ignored_gen first l1 raw l2 :
+  Forall (fun x => contains ","%char x = false) (l1 ++ raw :: l2) -> (l1 ++ l2)%list <> [] -> unknown_option_gen first raw = true ->
+  options_build_gen first (sjoin "," (l1 ++ raw :: l2)) = options_build_gen first (sjoin "," (l1 ++ l2)).
 Proof.
-  intros Hc Hne Hu. unfold options_build.
+  intros Hc Hne Hu. unfold options_build_gen.
   rewrite (split_join ","%char (l1 ++ raw :: l2)); [|destruct l1; discriminate|assumption].
   rewrite (split_join ","%char (l1 ++ l2)); [|assumption|].
   - now rewrite parse_opts_ignore.
   - apply Forall_app in Hc as [H1 H2]. inversion H2; subst. apply Forall_app. split; assumption.
 Qed.
-Lemma unknown_option_alone raw : contains ","%char raw = false -> unknown_option raw = true -> options_build raw = options_build "".
+Lemma unknown_options_ignored l1 raw l2 :
+  Forall (fun x => contains ","%char x = false) (l1 ++ raw :: l2) -> (l1 ++ l2)%list <> [] -> unknown_option raw = true ->
+  options_build (sjoin "," (l1 ++ raw :: l2)) = options_build (sjoin "," (l1 ++ l2)).
+Proof. exact (unknown_options_ignored_gen opt_split_first l1 raw l2). Qed.
+Lemma unknown_option_alone_gen first raw : contains ","%char raw = false -> unknown_option_gen first raw = true ->
+  options_build_gen first raw = options_build_gen first "".
 Proof.
-  intros Hc Hu. unfold options_build. unfold split_on.
-  rewrite (proj2 (split_acc_piece ","%char raw Hc "" "")). simpl. now rewrite (unknown_parse raw Hu).
+  intros Hc Hu. unfold options_build_gen. unfold split_on.
+  rewrite (proj2 (split_acc_piece ","%char raw Hc "" "")). simpl parse_opts_gen. rewrite (unknown_parse first raw Hu).
+  destruct first; reflexivity.
 Qed.
+Lemma unknown_option_alone raw : contains ","%char raw = false -> unknown_option raw = true -> options_build raw = options_build "".
+Proof. exact (unknown_option_alone_gen opt_split_first raw). Qed.
 
-(* the statement is false without the restriction on "=": an option that is not meant for this generator at all makes
-   Options.build fail (DESIGN section 9 no. 19) *)
-Lemma unknown_option_refuted :
+(* the statement is false of the code that splits at every "=" without the restriction: an option that is not meant for this
+   generator at all makes Options.build fail (DESIGN section 9 no. 19); it is true of the code that splits once *)
+Lemma unknown_option_refuted_gen :
+  exists raw k v, split_on "="%char raw = k :: v /\ mem_str k opt_flags = false /\ starts_with gapic_prefix k = false /\
+                  options_build_gen false raw = Err EBadOption /\ options_build_gen false ("metadata," ++ raw) = Err EBadOption /\
+                  unknown_option_gen true raw = true.
+Proof. exists "foo=a=b", "foo", ["a"; "b"]. vm_compute. repeat split. Qed.
+Lemma unknown_option_refuted : opt_split_first = false ->
   exists raw k v, split_on "="%char raw = k :: v /\ mem_str k opt_flags = false /\ starts_with gapic_prefix k = false /\
                   options_build raw = Err EBadOption /\ options_build ("metadata," ++ raw) = Err EBadOption.
-Proof. exists "foo=a=b", "foo", ["a"; "b"]. vm_compute. repeat split. Qed.
+Proof.
+  intro H. destruct unknown_option_refuted_gen as (raw & k & v & H1 & H2 & H3 & H4 & H5 & _).
+  exists raw, k, v. unfold options_build. rewrite H. auto.
+Qed.
 
 Example unknown_option_examples :
-  unknown_option "foo=bar" = true /\ unknown_option " Mgoogle/api/x.proto=pkg " = true /\ unknown_option "" = true
-  /\ unknown_option "metadata" = false /\ unknown_option "python-gapic-name=x" = false /\ unknown_option "foo=a=b" = false
-  /\ options_build "transport=rest,foo=bar,metadata" = options_build "transport=rest,metadata".
+  unknown_option_gen false "foo=bar" = true /\ unknown_option_gen false " Mgoogle/api/x.proto=pkg " = true
+  /\ unknown_option_gen false "" = true /\ unknown_option_gen false "metadata" = false
+  /\ unknown_option_gen false "python-gapic-name=x" = false /\ unknown_option_gen false "foo=a=b" = false
+  /\ unknown_option_gen true "foo=a=b" = true /\ unknown_option_gen true "transport=a=b" = false
+  /\ options_build_gen false "transport=rest,foo=bar,metadata" = options_build_gen false "transport=rest,metadata"
+  /\ options_build_gen true "transport=rest,foo=a=b,metadata" = options_build_gen true "transport=rest,metadata".
 Proof. vm_compute. repeat split. Qed.
 
 (* ------------------------------------------------------------------ finite facts about the template lists *)
